@@ -11,6 +11,7 @@ package c40
 import (
 	"bytes"
 	"crypto/sha256"
+	"encoding/base32"
 	"errors"
 	"fmt"
 	"io/fs"
@@ -192,9 +193,41 @@ type foreign struct {
 
 var foreignNames = []string{"README", "key_", "key_!!", "key_MFRGG", "key_mfrgg", "KEY_mfrgg", "key_ma", "key_m\xc3\xa9", "key_mfrggzdf", "key", "key_mfrgg.tmp", ".key_mfrgg", "key_mf======"}
 
-func runCase(t *testing.T, e *vh.Env, w *world, cs *vh.Cases, st *vh.Stats, ops []op, d0 []string, tag string) {
+// Where the keystore directory lives: its name (possibly containing glob metacharacters) and sibling directories
+// that hold FOREIGN key files. Whatever the path looks like, the keystore must behave as the same map and must
+// never report (or read) the siblings' keys.
+type place struct {
+	name     string
+	siblings []string
+}
+
+var places = []place{
+	{"ks", nil},
+	{"keys[1]", []string{"keys1"}},
+	{"k*", []string{"ks", "kx", "k"}},
+	{"a?b", []string{"axb", "a1b"}},
+	{"[a-z]", []string{"k", "a"}},
+	{"k\\s", []string{"ks"}},
+	{"keys[1", []string{"keys1"}},
+	{"*", []string{"other", "sub2"}},
+	{"ks[!x]", []string{"ksy"}},
+}
+
+func keyFileName(name string) string {
+	return "key_" + strings.ToLower(base32.StdEncoding.WithPadding(base32.NoPadding).EncodeToString([]byte(name)))
+}
+
+func runCase(t *testing.T, e *vh.Env, w *world, cs *vh.Cases, st *vh.Stats, ops []op, d0 []string, pl place, tag string) {
 	root := t.TempDir()
-	ksdir := filepath.Join(root, "ks")
+	ksdir := filepath.Join(root, pl.name)
+	for _, sib := range pl.siblings {
+		os.MkdirAll(filepath.Join(root, sib), 0o700)
+		for _, fn := range []string{"foreign", "other/key", "a"} {
+			if err := os.WriteFile(filepath.Join(root, sib, keyFileName(fn)), w.marshal[nKeys-1], 0o400); err != nil {
+				t.Fatalf("harness: sibling key file: %v", err)
+			}
+		}
+	}
 	os.WriteFile(filepath.Join(root, "secret"), []byte("s3cret"), 0o600)
 	os.WriteFile(filepath.Join(root, "x"), []byte("x"), 0o644)
 	os.WriteFile(filepath.Join(root, "key_mfrgg"), []byte("decoy"), 0o644)
@@ -246,7 +279,8 @@ func runCase(t *testing.T, e *vh.Env, w *world, cs *vh.Cases, st *vh.Stats, ops 
 	for i, o := range ops {
 		desc[i] = fmt.Sprintf("%s %q %d", o.kind, o.name, o.key)
 	}
-	rp := map[string]any{"ops": desc, "preexisting": d0, "from": tag}
+	rp := map[string]any{"ops": desc, "preexisting": d0, "keystore_dir": pl.name, "sibling_dirs_with_foreign_keys": pl.siblings, "from": tag}
+	st.Count("ksdir/" + pl.name)
 	cs.Add(term, rp)
 	distinct := map[string]bool{}
 	puts := 0
@@ -256,7 +290,7 @@ func runCase(t *testing.T, e *vh.Env, w *world, cs *vh.Cases, st *vh.Stats, ops 
 			puts++
 		}
 	}
-	st.Case(strings.Join(desc, ";")+"|"+strings.Join(d0, ";"), len(ops) >= 4 && puts >= 1)
+	st.Case(strings.Join(desc, ";")+"|"+strings.Join(d0, ";")+"|"+pl.name, len(ops) >= 4 && puts >= 1)
 	st.Count(fmt.Sprintf("len=%d0s", len(ops)/10))
 	if len(d0) > 0 {
 		st.Count("preexisting-files")
@@ -290,7 +324,8 @@ func TestC40(t *testing.T) {
 		"(slashes, dot-dot, NUL, unicode and its normalisation/case variants, base32 look-alikes, every base32 tail length, " +
 		"lengths 150..300 around the 255-byte file name limit, occasionally the empty name), 5 keys; a fifth of the cases start " +
 		"from a keystore directory with pre-existing files (undecodable, upper-case, valid); decoy files next to the keystore " +
-		"directory are snapshotted before/after. non-trivial = >= 4 operations including a Put; distinct by (ops, pre-existing files)")
+		"directory are snapshotted before/after; a third of the cases keep the keystore in a directory whose path contains glob " +
+		"metacharacters (keys[1], k*, a?b, [a-z], k\\s, keys[1, *, ks[!x]) next to sibling directories holding foreign key files. non-trivial = >= 4 operations including a Put; distinct by (ops, pre-existing files)")
 	st.Extra["name_max_255"] = longOK
 	cs := vh.NewCases(e, "From V Require Import model.M_C40.\nOpen Scope N_scope.", "case", "check_case", 250)
 
@@ -325,7 +360,12 @@ func TestC40(t *testing.T) {
 		d0  []string
 	}{[]op{L, G("abc"), P("abc", 0), D("abc"), L, G("abc"), H("")}, foreignNames})
 	for i, c := range corpus {
-		runCase(t, e, w, cs, st, c.ops, c.d0, fmt.Sprintf("corpus%d", i))
+		runCase(t, e, w, cs, st, c.ops, c.d0, places[0], fmt.Sprintf("corpus%d", i))
+	}
+	// the same map behaviour in directories whose PATH contains glob metacharacters, next to directories with foreign keys
+	for i, pl := range places[1:] {
+		runCase(t, e, w, cs, st, []op{P("mine", 0), P("a/b", 1), P("..", 2), L, G("mine"), H("foreign"), G("foreign"), D("mine"), L, P("foreign", 3), L},
+			nil, pl, fmt.Sprintf("corpus-place%d", i))
 	}
 	n := e.Pick(900, 10000)
 	r := e.Rng
@@ -359,7 +399,11 @@ func TestC40(t *testing.T) {
 				}
 			}
 		}
-		runCase(t, e, w, cs, st, ops, d0, "gen")
+		pl := places[0]
+		if r.Intn(3) == 0 {
+			pl = places[1+r.Intn(len(places)-1)]
+		}
+		runCase(t, e, w, cs, st, ops, d0, pl, "gen")
 	}
 	cs.Close()
 	st.Write(e)
